@@ -37,6 +37,8 @@ type CallSpec struct {
 	// Inner: name of a deriveKeys-style call wrapped around the argument (NAME(INNER(m), …)): the argument
 	// type of NAME is unknown until INNER has been generated, so the call needs a second generation pass.
 	Inner string `json:"inner,omitempty"`
+	// Const: the (single) argument is this untyped constant expression instead of a typed parameter; Type is its default type
+	Const string `json:"const,omitempty"`
 	// Builtin: the call site is an ARGUMENT of a builtin call: append(rs, NAME(…)) or panic(NAME(…))
 	Builtin string `json:"builtin,omitempty"`
 }
@@ -232,6 +234,9 @@ func plainWrapper(i int, c CallSpec, t TypeSpec) string {
 		}
 		return fmt.Sprintf("func %s(a, b %s) int { return %s(a, b) }\n", f, t.Go, c.Name)
 	case "tuple":
+		if c.Const != "" {
+			return fmt.Sprintf("func %s() func() %s { return %s(%s) }\n", f, t.Go, c.Name, c.Const)
+		}
 		if c.Arity == 1 {
 			return fmt.Sprintf("func %s(a %s) func() %s { return %s(a) }\n", f, t.Go, t.Go, c.Name)
 		}
